@@ -70,6 +70,102 @@ fn schedule_write_op_with_room_enqueues_once() {
     std::mem::forget(inner);
 }
 
+/// Queue FULL and the maintenance flag held by ANOTHER thread at the first attempt (that thread is in
+/// the tail of its run: it will not drain this queue any more). The other thread finishing is modelled
+/// by the stub of the retry sleep, which releases the flag. The writer must try maintenance again on
+/// its next round, run it itself, and complete: exactly two rounds. A writer that tries only once
+/// spins for ever on the full queue (the unwinding assertion of the retry loop is the check).
+static mut OTHER_HK: *const Housekeeper = std::ptr::null();
+static mut SLEEPS: u32 = 0;
+fn sleep_other_thread_finishes(_d: Duration) {
+    unsafe { SLEEPS += 1; if !OTHER_HK.is_null() { vh::set_running(&*OTHER_HK, false); } }
+}
+#[kani::proof]
+#[kani::unwind(6)]
+#[kani::stub(std::thread::sleep, sleep_other_thread_finishes)]
+fn schedule_write_op_retries_maintenance_until_the_queue_has_room() {
+    let (tx, rx) = crossbeam_channel::bounded::<Op>(2);
+    assert!(tx.try_send(an_op(0)).is_ok() && tx.try_send(an_op(1)).is_ok() && tx.is_full());
+    let now = Instant::new(instant_at(100, 0));
+    let inner = DrainingInner { rx, calls: Cell::new(0), now };
+    let hk = Arc::new(vh::mk_housekeeper(true, Instant::new(instant_at(100, 0))));   // flag busy: another thread
+    unsafe { OTHER_HK = &**(&hk) as *const Housekeeper; }
+    kani::cover!(true, "inputs chosen");
+    let r = Ca::schedule_write_op(&inner, &tx, an_op(2), now, Some(&hk));
+    assert!(r.is_ok(), "C09: insert on a full queue must complete once the other thread's maintenance run has ended");
+    assert!(unsafe { SLEEPS } == 1, "C09: one retry round after the flag became free");
+    assert!(inner.calls.get() == 1, "C09: the blocked writer must run the pending maintenance itself when it retries");
+    assert!(tx.len() == 1 && !vh::is_running(&hk), "C09: op queued, flag released");
+    kani::cover!(true, "end reached");
+    std::mem::forget(inner);
+}
+
+// ================================================================================================
+// C07: Cache::invalidate(k) of an entry that lookups currently HIDE (idle deadline passed by its
+// last_accessed, or written before the invalidate_all watermark) but that is still in the map: it must be
+// removed all the same -- a read recorded earlier and applied later would otherwise make it observable
+// again after invalidate returned.
+// ================================================================================================
+fn invalidate_hidden(tc: usize, ttl: bool, tti: bool, va: bool) {
+    let st = vs::mk_state(&vs::mk_cfg(2, Some(3), ttl, tti, va, tc));
+    let cache: Ca = Cache { base: vs::base_of(st) };
+    assert!(!cache.base.contains_key(&0u8), "VERIF-BOUND: harness time class must hide key 0");
+    cache.invalidate(&0u8);
+    assert!(cache.base.inner.verif_in_map(0) == false, "C07: invalidate(k) returned but k is still in the map (hidden only by its timestamps: an applied read or nothing at all can bring it back)");
+    assert!(cache.base.inner.verif_in_map(1), "C07: invalidate(k) must not affect other keys");
+    assert!(cache.base.write_op_ch.len() == 1, "C07,C10,C11: the removal must be queued for maintenance");
+    kani::cover!(true, "end reached");
+    std::mem::forget(cache);
+}
+#[kani::proof]
+#[kani::unwind(6)]
+#[kani::stub(std::time::Instant::now, vs::now_stub)]
+fn invalidate_removes_an_idle_expired_entry() { invalidate_hidden(3, false, true, false) }
+#[kani::proof]
+#[kani::unwind(6)]
+#[kani::stub(std::time::Instant::now, vs::now_stub)]
+fn invalidate_removes_an_entry_below_the_watermark() { invalidate_hidden(4, false, false, true) }
+
+// ================================================================================================
+// C16 / C05 / C06 (sync, the real iterator src/sync/iter.rs over the map model): iteration yields every
+// live entry exactly once and no expired one, judged at the clock reading of EACH next() call: the
+// clock moves between iter() and next() (an iterator created while the entry was alive must not
+// yield it once its deadline has passed).
+// ================================================================================================
+fn sync_iter_moving_clock(tc_create: usize, tc_next: usize, ttl: bool, tti: bool, va: bool) {
+    vs::set_now(vs::tc_now(tc_create));
+    let st = vs::mk_state(&vs::mk_cfg(2, Some(3), ttl, tti, va, tc_next));   // timestamps of class tc_next
+    let hid = [vs::hidden_at(&st, 0), vs::hidden_at(&st, 1)];               // at the LATER reading
+    vs::set_now(vs::tc_now(tc_create));
+    let cache: Ca = Cache { base: vs::base_of(st) };
+    let mut it = cache.iter();
+    vs::set_now(vs::tc_now(tc_next));                                        // the clock advances
+    let mut seen = [0u32; 2];
+    let mut i = 0;
+    while i < 4 {
+        if let Some(r) = it.next() { let k = *r.key() as usize; assert!(k < 2, "C16,C01: iteration yields a key that was never inserted"); seen[k] += 1; }
+        i += 1;
+    }
+    drop(it);
+    let mut k = 0;
+    while k < 2 {
+        assert!(seen[k] <= 1, "C16: iteration yields an entry twice");
+        assert!((seen[k] == 1) == !hid[k], "C16,C05,C06,C07: iteration must yield exactly the entries that are live at the clock reading of the next() call (never an expired or invalidated one, every live one)");
+        k += 1;
+    }
+    assert!(cache.base.inner.verif_read_len() == 0 && cache.base.write_op_ch.len() == 0, "C15: iteration records nothing");
+    kani::cover!(true, "end reached");
+    std::mem::forget(cache);
+}
+#[kani::proof]
+#[kani::unwind(6)]
+#[kani::stub(std::time::Instant::now, vs::now_stub)]
+fn sync_iter_skips_entry_that_expires_after_iter_was_created() { sync_iter_moving_clock(8, 2, true, false, false) }
+#[kani::proof]
+#[kani::unwind(6)]
+#[kani::stub(std::time::Instant::now, vs::now_stub)]
+fn sync_iter_yields_each_live_entry_once() { sync_iter_moving_clock(1, 1, true, true, true) }
+
 // ================================================================================================
 // C07 / C11: Cache::invalidate of a key whose insert is still queued (not yet admitted)
 // ================================================================================================
